@@ -34,10 +34,21 @@ pub struct NetworkEndian;
 /// stand-in for io::Error::new(kind, msg) (generic over Into<Box<dyn Error>>, outside Verus)
 #[verifier::external_body] pub fn vx_io_error_new(k: std::io::ErrorKind) -> (e: std::io::Error) ensures io_kind(e) == k { unimplemented!() }
 /// big-endian byte strings of the fixed-width integers (from the statement's wire format: network byte order)
-pub open spec fn be_u8(x: u8) -> Seq<u8> { seq![x] }
-pub open spec fn be_u16(x: u16) -> Seq<u8> { seq![(x / 256) as u8, (x % 256) as u8] }
-pub open spec fn be_u32(x: u32) -> Seq<u8> { seq![(x / 16777216) as u8, (x / 65536 % 256) as u8, (x / 256 % 256) as u8, (x % 256) as u8] }
-pub open spec fn be_u64(x: u64) -> Seq<u8> { be_u32((x / 4294967296) as u32) + be_u32((x % 4294967296) as u32) }
+pub mod be {
+    use vstd::prelude::*;
+    pub open spec fn be_u8(x: u8) -> Seq<u8> { seq![x] }
+    // opaque: the codec proofs only ever need these as atoms plus their lengths (division/modulo terms made the
+    // decoders' queries an order of magnitude slower)
+    #[verifier::opaque] pub open spec fn be_u16(x: u16) -> Seq<u8> { seq![(x / 256) as u8, (x % 256) as u8] }
+    #[verifier::opaque] pub open spec fn be_u32(x: u32) -> Seq<u8> { seq![(x / 16777216) as u8, (x / 65536 % 256) as u8, (x / 256 % 256) as u8, (x % 256) as u8] }
+    #[verifier::opaque] pub open spec fn be_u64(x: u64) -> Seq<u8> { be_u32((x / 4294967296) as u32) + be_u32((x % 4294967296) as u32) }
+    /// their lengths, broadcast
+    pub broadcast proof fn lemma_be_len16(x: u16) ensures #[trigger] be_u16(x).len() == 2 { reveal(be_u16); }
+    pub broadcast proof fn lemma_be_len32(x: u32) ensures #[trigger] be_u32(x).len() == 4 { reveal(be_u32); }
+    pub broadcast proof fn lemma_be_len64(x: u64) ensures #[trigger] be_u64(x).len() == 8 { reveal(be_u64); lemma_be_len32((x / 4294967296) as u32); lemma_be_len32((x % 4294967296) as u32); }
+}
+pub use be::*;
+broadcast use be::lemma_be_len16, be::lemma_be_len32, be::lemma_be_len64;
 /// stand-in for the `byteorder` crate (external): big-endian reads/writes over the stream models.
 pub trait ReadBytesExt: std::io::Read {
     /// ASSUMED (byteorder): read_uN::<NetworkEndian> consumes N/8 bytes which are the big-endian bytes of the result
@@ -226,21 +237,56 @@ pub use filter::Filter;
 pub mod wire { pub use crate::{Encode, Decode, Error, Size}; }
 pub mod crypto { pub use crate::Signature; }
 pub use crate::git::Oid;
-/// opaque stand-in: the node announcement codec (strings, aliases, addresses, optional trailing user agent) is NOT
-/// under contract in this unit; ASSUMED to satisfy the Encode/Decode contracts with `node_ann_bytes` as its wire form.
-pub struct NodeAnnouncement { pub opaque: u64 }
-pub uninterp spec fn node_ann_bytes(a: NodeAnnouncement) -> Seq<u8>;
-impl Encode for NodeAnnouncement {
-    open spec fn enc(&self) -> Seq<u8> { node_ann_bytes(*self) }
-    #[verifier::external_body]
-    fn encode<W: io::Write + ?Sized>(&self, writer: &mut W) -> Result<usize, io::Error> { unimplemented!() }
+// ---- leaves of the node announcement that are NOT under contract (strings / external address types) ------------------
+/// Alias, UserAgent (validated strings, `str` byte reasoning is outside Verus) and Address (cyphernet): opaque values
+/// whose wire bytes are uninterpreted; ASSUMED to satisfy the Encode/Decode contracts of this unit (no alternative form).
+pub struct Alias { pub opaque: u64 }
+pub struct UserAgent { pub opaque: u64 }
+pub struct Address { pub opaque: u64 }
+pub uninterp spec fn alias_bytes(a: Alias) -> Seq<u8>;
+pub uninterp spec fn agent_bytes(a: UserAgent) -> Seq<u8>;
+pub uninterp spec fn address_bytes(a: Address) -> Seq<u8>;
+pub uninterp spec fn default_agent() -> UserAgent;
+impl UserAgent { #[verifier::external_body] pub fn default() -> (r: UserAgent) ensures r == default_agent() { unimplemented!() } }
+impl Encode for Alias { open spec fn enc(&self) -> Seq<u8> { alias_bytes(*self) }
+    #[verifier::external_body] fn encode<W: io::Write + ?Sized>(&self, writer: &mut W) -> Result<usize, io::Error> { unimplemented!() } }
+impl Decode for Alias { open spec fn wire(v: Self) -> Seq<u8> { alias_bytes(v) } open spec fn canonical_only() -> bool { true } open spec fn loose(v: Self, before: Seq<u8>, after: Seq<u8>) -> bool { true }
+    #[verifier::external_body] fn decode<R: io::Read + ?Sized>(reader: &mut R) -> Result<Self, Error> { unimplemented!() } }
+impl Encode for UserAgent { open spec fn enc(&self) -> Seq<u8> { agent_bytes(*self) }
+    #[verifier::external_body] fn encode<W: io::Write + ?Sized>(&self, writer: &mut W) -> Result<usize, io::Error> { unimplemented!() } }
+impl Decode for UserAgent { open spec fn wire(v: Self) -> Seq<u8> { agent_bytes(v) } open spec fn canonical_only() -> bool { true } open spec fn loose(v: Self, before: Seq<u8>, after: Seq<u8>) -> bool { true }
+    #[verifier::external_body] fn decode<R: io::Read + ?Sized>(reader: &mut R) -> Result<Self, Error> { unimplemented!() } }
+impl Encode for Address { open spec fn enc(&self) -> Seq<u8> { address_bytes(*self) }
+    #[verifier::external_body] fn encode<W: io::Write + ?Sized>(&self, writer: &mut W) -> Result<usize, io::Error> { unimplemented!() } }
+impl Decode for Address { open spec fn wire(v: Self) -> Seq<u8> { address_bytes(v) } open spec fn canonical_only() -> bool { true } open spec fn loose(v: Self, before: Seq<u8>, after: Seq<u8>) -> bool { true }
+    #[verifier::external_body] fn decode<R: io::Read + ?Sized>(reader: &mut R) -> Result<Self, Error> { unimplemented!() } }
+/// stand-in for `UserAgent::decode(&mut io::Read::chain(first.as_slice(), &mut *reader))`.
+/// ASSUMED (std::io::Chain + the Decode contract of UserAgent): decodes from the byte `first` followed by the reader.
+#[verifier::external_body]
+pub fn vx_decode_agent_after<R: io::Read + ?Sized>(first: [u8; 1], reader: &mut R) -> (r: Result<UserAgent, Error>)
+    ensures r is Ok ==> first@ + (*old(reader)).rem() =~= agent_bytes(r->Ok_0) + (*final(reader)).rem()
+{ unimplemented!() }
+pub mod node {
+    use vstd::prelude::*;
+    #[derive(Clone, Copy, Debug, PartialEq, Eq)] pub struct Features(pub u64);
+    impl std::ops::Deref for Features { type Target = u64; fn deref(&self) -> (r: &u64) ensures *r == self.0 { &self.0 } }
+    impl From<u64> for Features { fn from(x: u64) -> (r: Features) ensures r == Features(x) { Features(x) } }
+    impl vstd::std_specs::convert::FromSpecImpl<u64> for Features { open spec fn obeys_from_spec() -> bool { true } open spec fn from_spec(x: u64) -> Features { Features(x) } }
+    pub struct AliasError;
 }
-impl Decode for NodeAnnouncement {
-    open spec fn wire(v: Self) -> Seq<u8> { node_ann_bytes(v) }
-    #[verifier::external_body]
-    fn decode<R: io::Read + ?Sized>(reader: &mut R) -> Result<Self, Error> { unimplemented!() }
+/// associativity of concatenation, for the six leading fields of a node announcement (a dedicated lemma keeps this
+/// out of the decoder's own query)
+pub proof fn lemma_cat6(a: Seq<u8>, b: Seq<u8>, c: Seq<u8>, d: Seq<u8>, e: Seq<u8>, f: Seq<u8>, r: Seq<u8>)
+    ensures a + (b + (c + (d + (e + (f + r))))) =~= (((((a + b) + c) + d) + e) + f) + r
+{}
+/// the node announcement up to and including the nonce
+pub open spec fn node_ann_body(a: NodeAnnouncement) -> Seq<u8> {
+    be_u8(a.version) + be_u64(a.features.0) + be_u64(a.timestamp.0) + alias_bytes(a.alias) + a.addresses.enc() + be_u64(a.nonce)
 }
 //@extract crates/radicle-node/src/service/message.rs
+//@  item const ADDRESS_LIMIT
+//@  item struct NodeAnnouncement
+//@    derive
 //@  item const REF_REMOTE_LIMIT
 //@  item const INVENTORY_LIMIT
 //@  item struct Subscribe
@@ -279,6 +325,31 @@ impl Decode for NodeAnnouncement {
 //@      ret r
 //@      ensures
 //@        r == Message::Announcement(ann)
+//@  impl wire::Encode for NodeAnnouncement
+//@    add
+//@      open spec fn enc(&self) -> Seq<u8> { node_ann_body(*self) + agent_bytes(self.agent) }
+//@    fn encode
+//@      desugar_try
+//@      head
+//@        proof { std_from_refl::<io::Error>(); }
+//@  impl wire::Decode for NodeAnnouncement
+//@    add
+//@      open spec fn wire(v: Self) -> Seq<u8> { node_ann_body(v) + agent_bytes(v.agent) }
+//@      open spec fn canonical_only() -> bool { false }
+//@      /// the statement's exception: the trailing user agent may be left out altogether, at the very end of the input
+//@      /// (the value then carries the default agent); anything else must be the canonical bytes
+//@      open spec fn loose(v: Self, before: Seq<u8>, after: Seq<u8>) -> bool {
+//@          before =~= Self::wire(v) + after || (v.agent == default_agent() && before =~= node_ann_body(v) && after.len() == 0)
+//@      }
+//@    fn decode
+//@      desugar_try
+//@      body_sub UserAgent::decode\(&mut io::Read::chain\(first\.as_slice\(\), &mut \*reader\)\) => vx_decode_agent_after(first, reader)
+//@      head
+//@        proof { std_from_refl::<wire::Error>(); }
+//@      hint 1 let nonce = 
+//@        lemma_flat_eq::<Address>(addresses.v@);
+//@      hint 1 let agent = 
+//@        lemma_cat6(be_u8(version), be_u64(features.0), be_u64(timestamp.0), alias_bytes(alias), addresses.enc(), be_u64(nonce), (*reader).rem());
 //@  item struct ZeroBytes
 //@    derive Clone, Debug, PartialEq, Eq
 //@  impl ZeroBytes
@@ -309,7 +380,6 @@ pub fn vx_encode_unwrap<T: Encode + ?Sized>(data: &T, buffer: &mut Vec<u8>) -> (
 { data.encode(buffer).unwrap() }
 pub struct FromUtf8Error;
 pub mod fmt { pub struct Error; }
-pub mod node { pub struct AliasError; }
 pub mod tor { pub struct OnionAddrDecodeError; }
 
 //@extract crates/radicle-node/src/wire.rs
@@ -317,6 +387,13 @@ pub mod tor { pub struct OnionAddrDecodeError; }
 //@  item enum Error
 //@    derive
 //@    thiserror_from
+//@  impl Error
+//@    add
+//@      pub open spec fn is_eof_spec(self) -> bool { self matches Error::Io(e) && is_eof_kind(e) }
+//@    fn is_eof
+//@      ret r
+//@      ensures
+//@        r == self.is_eof_spec()
 //@  trait Encode
 //@    add
 //@      /// ghost: the bytes of this value on the wire
@@ -329,57 +406,46 @@ pub mod tor { pub struct OnionAddrDecodeError; }
 //@        r is Ok ==> (*final(writer)).written().len() <= usize::MAX
 //@  trait Decode
 //@    add
-//@      /// ghost: the only byte string that decodes to `v`
+//@      /// ghost: the byte string that decodes to `v`
 //@      spec fn wire(v: Self) -> Seq<u8>;
+//@      /// ghost: true for every type whose decoder accepts only `wire(v)`; false only where the statement makes an
+//@      /// exception (a node announcement "without the optional trailing user agent") and for types embedding one
+//@      spec fn canonical_only() -> bool;
+//@      /// ghost: what a successful decode guarantees for a type that is not canonical_only
+//@      spec fn loose(v: Self, before: Seq<u8>, after: Seq<u8>) -> bool;
 //@    fn decode
 //@      ret r
 //@      ensures
-//@        r is Ok ==> (*old(reader)).rem() =~= Self::wire(r->Ok_0) + (*final(reader)).rem() //[C15]
-//@  fn serialize
-//@    ret r
-//@    requires
-//@      # documented: panics if the object does not fit a frame; "every message the node can construct encodes within the
-//@      # 64 KiB limit" is lemma_message_fits below
-//@      vx_encodes_ok(data)
-//@    ensures
-//@      r@ == data.enc() //[C15]
-//@    body_sub data\.encode\(&mut buffer\)\.unwrap\(\) => vx_encode_unwrap(data, &mut buffer)
-//@  fn deserialize
-//@    desugar_try
-//@    ret r
-//@    head
-//@      proof { std_from_refl::<Error>(); }
-//@    ensures
-//@      # the whole input is the one encoding of the value
-//@      r is Ok ==> data@ =~= T::wire(r->Ok_0) //[C15]
+//@        r is Ok && Self::canonical_only() ==> (*old(reader)).rem() =~= Self::wire(r->Ok_0) + (*final(reader)).rem() //[C15]
+//@        r is Ok && !Self::canonical_only() ==> Self::loose(r->Ok_0, (*old(reader)).rem(), (*final(reader)).rem()) //[C15]
 //@  impl Encode for u8
 //@    add
 //@      open spec fn enc(&self) -> Seq<u8> { be_u8(*self) }
 //@    fn encode
 //@      desugar_try
 //@      head
-//@        proof { std_from_refl::<io::Error>(); }
+//@        proof { std_from_refl::<io::Error>(); assert(self.enc() == be_u8(*self)); }
 //@  impl Encode for u16
 //@    add
 //@      open spec fn enc(&self) -> Seq<u8> { be_u16(*self) }
 //@    fn encode
 //@      desugar_try
 //@      head
-//@        proof { std_from_refl::<io::Error>(); }
+//@        proof { std_from_refl::<io::Error>(); assert(self.enc() == be_u16(*self)); }
 //@  impl Encode for u32
 //@    add
 //@      open spec fn enc(&self) -> Seq<u8> { be_u32(*self) }
 //@    fn encode
 //@      desugar_try
 //@      head
-//@        proof { std_from_refl::<io::Error>(); }
+//@        proof { std_from_refl::<io::Error>(); assert(self.enc() == be_u32(*self)); }
 //@  impl Encode for u64
 //@    add
 //@      open spec fn enc(&self) -> Seq<u8> { be_u64(*self) }
 //@    fn encode
 //@      desugar_try
 //@      head
-//@        proof { std_from_refl::<io::Error>(); }
+//@        proof { std_from_refl::<io::Error>(); assert(self.enc() == be_u64(*self)); }
 //@  impl <const T: usize> Encode for [u8; T]
 //@    add
 //@      open spec fn enc(&self) -> Seq<u8> { self@ }
@@ -390,26 +456,31 @@ pub mod tor { pub struct OnionAddrDecodeError; }
 //@  impl Decode for u8
 //@    add
 //@      open spec fn wire(v: Self) -> Seq<u8> { be_u8(v) }
+//@      open spec fn canonical_only() -> bool { true } open spec fn loose(v: Self, before: Seq<u8>, after: Seq<u8>) -> bool { true }
 //@    fn decode
 //@      body_sub reader\.read_u8\(\)\.map_err\(Error::from\) => reader.read_u8().map_err(|e| -> (o: Error) ensures o == Error::Io(e) { Error::from(e) })
 //@  impl Decode for u16
 //@    add
 //@      open spec fn wire(v: Self) -> Seq<u8> { be_u16(v) }
+//@      open spec fn canonical_only() -> bool { true } open spec fn loose(v: Self, before: Seq<u8>, after: Seq<u8>) -> bool { true }
 //@    fn decode
 //@      body_sub reader\.read_u16::<NetworkEndian>\(\)\.map_err\(Error::from\) => reader.read_u16::<NetworkEndian>().map_err(|e| -> (o: Error) ensures o == Error::Io(e) { Error::from(e) })
 //@  impl Decode for u32
 //@    add
 //@      open spec fn wire(v: Self) -> Seq<u8> { be_u32(v) }
+//@      open spec fn canonical_only() -> bool { true } open spec fn loose(v: Self, before: Seq<u8>, after: Seq<u8>) -> bool { true }
 //@    fn decode
 //@      body_sub reader\.read_u32::<NetworkEndian>\(\)\.map_err\(Error::from\) => reader.read_u32::<NetworkEndian>().map_err(|e| -> (o: Error) ensures o == Error::Io(e) { Error::from(e) })
 //@  impl Decode for u64
 //@    add
 //@      open spec fn wire(v: Self) -> Seq<u8> { be_u64(v) }
+//@      open spec fn canonical_only() -> bool { true } open spec fn loose(v: Self, before: Seq<u8>, after: Seq<u8>) -> bool { true }
 //@    fn decode
 //@      body_sub reader\.read_u64::<NetworkEndian>\(\)\.map_err\(Error::from\) => reader.read_u64::<NetworkEndian>().map_err(|e| -> (o: Error) ensures o == Error::Io(e) { Error::from(e) })
 //@  impl <const N: usize> Decode for [u8; N]
 //@    add
 //@      open spec fn wire(v: Self) -> Seq<u8> { v@ }
+//@      open spec fn canonical_only() -> bool { true } open spec fn loose(v: Self, before: Seq<u8>, after: Seq<u8>) -> bool { true }
 //@    fn decode
 //@      desugar_try
 //@  impl Encode for PublicKey
@@ -425,7 +496,7 @@ pub mod tor { pub struct OnionAddrDecodeError; }
 //@      desugar_for
 //@      body_sub self\.iter\(\) => vx_iter(self)
 //@      head
-//@        proof { std_from_refl::<io::Error>(); }
+//@        proof { std_from_refl::<io::Error>(); assert(self.enc() == be_u16(self@.len() as u16) + flat_enc(self@)); }
 //@        broadcast use vx_lem::lemma_flat_enc_push;
 //@      loop 1
 //@        invariant
@@ -457,6 +528,7 @@ pub mod tor { pub struct OnionAddrDecodeError; }
 //@  impl Decode for PublicKey
 //@    add
 //@      open spec fn wire(v: Self) -> Seq<u8> { v.0@ }
+//@      open spec fn canonical_only() -> bool { true } open spec fn loose(v: Self, before: Seq<u8>, after: Seq<u8>) -> bool { true }
 //@    fn decode
 //@      desugar_try
 //@      head
@@ -464,6 +536,7 @@ pub mod tor { pub struct OnionAddrDecodeError; }
 //@  impl Decode for git::Oid
 //@    add
 //@      open spec fn wire(v: Self) -> Seq<u8> { be_u16(20) + v.0.0@ }
+//@      open spec fn canonical_only() -> bool { true } open spec fn loose(v: Self, before: Seq<u8>, after: Seq<u8>) -> bool { true }
 //@    fn decode
 //@      desugar_try
 //@      # ASSUMED: git2's raw Oid is 20 bytes (the std intrinsic cannot be evaluated in a const by Verus)
@@ -474,6 +547,7 @@ pub mod tor { pub struct OnionAddrDecodeError; }
 //@  impl Decode for Signature
 //@    add
 //@      open spec fn wire(v: Self) -> Seq<u8> { v.0@ }
+//@      open spec fn canonical_only() -> bool { true } open spec fn loose(v: Self, before: Seq<u8>, after: Seq<u8>) -> bool { true }
 //@    fn decode
 //@      desugar_try
 //@      head
@@ -481,6 +555,7 @@ pub mod tor { pub struct OnionAddrDecodeError; }
 //@  impl Decode for RepoId
 //@    add
 //@      open spec fn wire(v: Self) -> Seq<u8> { git::Oid::wire(v.0) }
+//@      open spec fn canonical_only() -> bool { true } open spec fn loose(v: Self, before: Seq<u8>, after: Seq<u8>) -> bool { true }
 //@    fn decode
 //@      desugar_try
 //@      head
@@ -495,6 +570,19 @@ pub mod tor { pub struct OnionAddrDecodeError; }
 //@  impl Decode for RefsAt
 //@    add
 //@      open spec fn wire(v: Self) -> Seq<u8> { PublicKey::wire(v.remote) + git::Oid::wire(v.at) }
+//@      open spec fn canonical_only() -> bool { true } open spec fn loose(v: Self, before: Seq<u8>, after: Seq<u8>) -> bool { true }
+//@    fn decode
+//@      desugar_try
+//@      head
+//@        proof { std_from_refl::<Error>(); }
+//@  impl Encode for node::Features
+//@    add
+//@      open spec fn enc(&self) -> Seq<u8> { be_u64(self.0) }
+//@    fn encode
+//@  impl Decode for node::Features
+//@    add
+//@      open spec fn wire(v: Self) -> Seq<u8> { be_u64(v.0) }
+//@      open spec fn canonical_only() -> bool { true } open spec fn loose(v: Self, before: Seq<u8>, after: Seq<u8>) -> bool { true }
 //@    fn decode
 //@      desugar_try
 //@      head
@@ -506,6 +594,7 @@ pub mod tor { pub struct OnionAddrDecodeError; }
 //@  impl Decode for Timestamp
 //@    add
 //@      open spec fn wire(v: Self) -> Seq<u8> { be_u64(v.0) }
+//@      open spec fn canonical_only() -> bool { true } open spec fn loose(v: Self, before: Seq<u8>, after: Seq<u8>) -> bool { true }
 //@    fn decode
 //@      desugar_try
 //@      body_sub \.map_err\(Error::InvalidTimestamp\) => .map_err(|e| -> (o: Error) { Error::InvalidTimestamp(e) })
@@ -521,6 +610,7 @@ pub mod tor { pub struct OnionAddrDecodeError; }
 //@  impl <T, const N: usize> Decode for BoundedVec<T, N> where T: Decode,
 //@    add
 //@      open spec fn wire(v: Self) -> Seq<u8> { be_u16(v.v@.len() as u16) + flat_wire(v.v@) }
+//@      open spec fn canonical_only() -> bool { T::canonical_only() } open spec fn loose(v: Self, before: Seq<u8>, after: Seq<u8>) -> bool { true }
 //@    fn decode
 //@      attr #[verifier::exec_allows_no_decreases_clause]
 //@      desugar_try
@@ -532,7 +622,7 @@ pub mod tor { pub struct OnionAddrDecodeError; }
 //@      loop 1
 //@        invariant
 //@          items.v@.len() == _i && _i <= len && vx_r.iter.end == len && len <= N && len <= 65535
-//@          (*old(reader)).rem() =~= be_u16(len as u16) + flat_wire(items.v@) + (*reader).rem()
+//@          T::canonical_only() ==> (*old(reader)).rem() =~= be_u16(len as u16) + flat_wire(items.v@) + (*reader).rem()
 //@      hint 1 items\.push\(item\)\.ok\(\);
 //@        vx_lem::lemma_flat_wire_push(items.v@, item);
 //@  impl Encode for filter::Filter
@@ -545,6 +635,7 @@ pub mod tor { pub struct OnionAddrDecodeError; }
 //@  impl Decode for filter::Filter
 //@    add
 //@      open spec fn wire(v: Self) -> Seq<u8> { be_u16(v.0.bytes@.len() as u16) + v.0.bytes@ }
+//@      open spec fn canonical_only() -> bool { true } open spec fn loose(v: Self, before: Seq<u8>, after: Seq<u8>) -> bool { true }
 //@    fn decode
 //@      desugar_try
 //@      body_sub !filter::FILTER_SIZES\.contains\(&size\) => !filter::vx_is_filter_size(size)
@@ -599,6 +690,7 @@ impl vstd::std_specs::convert::TryFromSpecImpl<u16> for InfoType {
 pub trait WireLaw: Encode + Decode + Sized { proof fn law(v: Self) ensures Self::wire(v) == v.enc(); }
 impl WireLaw for RefsAt { proof fn law(v: Self) {} }
 impl WireLaw for RepoId { proof fn law(v: Self) {} }
+impl WireLaw for Address { proof fn law(v: Self) {} }
 pub proof fn lemma_flat_eq<T: WireLaw>(s: Seq<T>) ensures flat_wire(s) == flat_enc(s) decreases s.len()
 { if s.len() > 0 { lemma_flat_eq::<T>(s.drop_last()); T::law(s.last()); } }
 /// C15, second sentence: any bytes that decode to `m` are exactly the bytes `m` encodes to
@@ -608,9 +700,19 @@ pub proof fn lemma_message_canonical(m: Message) ensures Message::wire(m) == m.e
         Message::Announcement(a) => match a.message {
             AnnouncementMessage::Inventory(x) => { lemma_flat_eq::<RepoId>(x.inventory.v@); }
             AnnouncementMessage::Refs(x) => { lemma_flat_eq::<RefsAt>(x.refs.v@); }
-            _ => {}
+            AnnouncementMessage::Node(x) => { lemma_flat_eq::<Address>(x.addresses.v@); }
         },
         _ => {}
+    }
+}
+/// the one alternative form of a message: a node announcement whose trailing user agent is left out
+pub open spec fn msg_alt(m: Message) -> Option<Seq<u8>> {
+    match m {
+        Message::Announcement(a) => match a.message {
+            AnnouncementMessage::Node(x) => if x.agent == default_agent() { Some(be_u16(2) + PublicKey::wire(a.node) + Signature::wire(a.signature) + node_ann_body(x)) } else { None },
+            _ => None,
+        },
+        _ => None,
     }
 }
 /// C15, first sentence ("every message the node can construct encodes within the 64 KiB frame limit"): the limits the
@@ -622,7 +724,7 @@ pub open spec fn constructible(m: Message) -> bool {
             AnnouncementMessage::Inventory(x) => x.inventory.v@.len() <= INVENTORY_LIMIT,
             AnnouncementMessage::Refs(x) => x.refs.v@.len() <= REF_REMOTE_LIMIT,
             // NOT decided here (node announcement codec is outside the unit): alias <= 32, <= 16 addresses, agent <= 64
-            AnnouncementMessage::Node(x) => node_ann_bytes(x).len() <= 65535 - 98,
+            AnnouncementMessage::Node(x) => x.enc().len() <= 65535 - 98,
         },
         Message::Info(_) => true,
         Message::Ping(p) => p.zeroes.0 <= 65535 - 6,
@@ -678,6 +780,7 @@ pub proof fn lemma_message_fits(m: Message) requires constructible(m) ensures m.
 //@  impl wire::Decode for RefsAnnouncement
 //@    add
 //@      open spec fn wire(v: Self) -> Seq<u8> { RepoId::wire(v.rid) + BoundedVec::<RefsAt, REF_REMOTE_LIMIT>::wire(v.refs) + Timestamp::wire(v.timestamp) }
+//@      open spec fn canonical_only() -> bool { true } open spec fn loose(v: Self, before: Seq<u8>, after: Seq<u8>) -> bool { true }
 //@    fn decode
 //@      desugar_try
 //@      head
@@ -692,6 +795,7 @@ pub proof fn lemma_message_fits(m: Message) requires constructible(m) ensures m.
 //@  impl wire::Decode for InventoryAnnouncement
 //@    add
 //@      open spec fn wire(v: Self) -> Seq<u8> { BoundedVec::<RepoId, INVENTORY_LIMIT>::wire(v.inventory) + Timestamp::wire(v.timestamp) }
+//@      open spec fn canonical_only() -> bool { true } open spec fn loose(v: Self, before: Seq<u8>, after: Seq<u8>) -> bool { true }
 //@    fn decode
 //@      desugar_try
 //@      head
@@ -722,6 +826,7 @@ pub proof fn lemma_message_fits(m: Message) requires constructible(m) ensures m.
 //@  impl wire::Decode for Info
 //@    add
 //@      open spec fn wire(v: Self) -> Seq<u8> { match v { Info::RefsAlreadySynced { rid, at } => be_u16(1) + RepoId::wire(rid) + git::Oid::wire(at) } }
+//@      open spec fn canonical_only() -> bool { true } open spec fn loose(v: Self, before: Seq<u8>, after: Seq<u8>) -> bool { true }
 //@    fn decode
 //@      desugar_try
 //@      head
@@ -741,6 +846,10 @@ pub proof fn lemma_message_fits(m: Message) requires constructible(m) ensures m.
 //@  impl wire::Decode for Message
 //@    add
 //@      open spec fn wire(v: Self) -> Seq<u8> { msg_wire(v) }
+//@      open spec fn canonical_only() -> bool { false }
+//@      open spec fn loose(v: Self, before: Seq<u8>, after: Seq<u8>) -> bool {
+//@          before =~= msg_wire(v) + after || (msg_alt(v) is Some && before =~= msg_alt(v)->Some_0 && after.len() == 0)
+//@      }
 //@    fn decode
 //@      desugar_try
 //@      head
@@ -763,6 +872,7 @@ pub proof fn lemma_message_fits(m: Message) requires constructible(m) ensures m.
 //@    add
 //@      /// from the statement: whatever decodes re-encodes to the same bytes -- so the padding must be zeroes
 //@      open spec fn wire(v: Self) -> Seq<u8> { be_u16(v.0) + Seq::new(v.0 as nat, |i: int| 0u8) }
+//@      open spec fn canonical_only() -> bool { true } open spec fn loose(v: Self, before: Seq<u8>, after: Seq<u8>) -> bool { true }
 //@    fn decode
 //@      attr #[verifier::exec_allows_no_decreases_clause]
 //@      desugar_try
